@@ -239,6 +239,17 @@ pub fn run(ctx: &Ctx) -> Report {
     // quantizer, glide, ribbon generators
     let t0 = std::time::Instant::now();
     stage("c17.quantizer.random", quant::random(ctx, want), &mut rep, t0);
+    // holds at the largest finite inputs: the filter state may overflow there (a C13 matter); whatever it does,
+    // no later call with finite arguments may panic
+    let t0 = std::time::Instant::now();
+    let hs = glide::largest_finite_histories(small);
+    let r = par_shards(ctx, hs.len(), |j| {
+        let mut rep = Report::new();
+        glide::run_and_record(&hs[j], want, &mut rep, false);
+        rep.count("c17.glide.largest_finite_input_histories", 1);
+        rep
+    });
+    stage("c17.glide.largest_finite_inputs", r, &mut rep, t0);
     let t0 = std::time::Instant::now();
     let n_gl = ctx.budget(6, 2_000, 80_000) as usize;
     let r = par_shards(ctx, shards, |sh| {
